@@ -1204,6 +1204,18 @@ class RawAlgorithmsMixIn:
 
         (xbar_data, ybar_data) = out
 
+        if x_data.ndim == 3 or y_data.ndim == 3:
+            # vector operands: treat x as a row matrix and y as a column matrix
+            D,P = x_data.shape[:2]
+            x2 = x_data.reshape((D,P,1,-1)) if x_data.ndim == 3 else x_data
+            y2 = y_data.reshape(y_data.shape + (1,)) if y_data.ndim == 3 else y_data
+            zbar2 = zbar_data.reshape(x2.shape[:-1] + y2.shape[3:])
+            xbar2 = numpy.zeros(x2.shape, dtype=xbar_data.dtype)
+            ybar2 = numpy.zeros(y2.shape, dtype=ybar_data.dtype)
+            xbar_data += cls._dot(zbar2, cls._transpose(y2), out = xbar2).reshape(x_data.shape)
+            ybar_data += cls._dot(cls._transpose(x2), zbar2, out = ybar2).reshape(y_data.shape)
+            return out
+
         xbar_data += cls._dot(zbar_data, cls._transpose(y_data), out = xbar_data.copy())
         ybar_data += cls._dot(cls._transpose(x_data), zbar_data, out = ybar_data.copy())
 
